@@ -93,6 +93,10 @@ class _Endpoint:
         """h2.receive_data with error classification; returns the events."""
         if self.proto_error is not None or not data:
             return []
+        if self.goaway_tx is not None:
+            # h2 refuses all input once it has sent GOAWAY; frames still in flight are not the proxy's fault
+            self.note("rx_after_goaway", len(data))
+            return []
         try:
             evs = self.conn.receive_data(data)
         except h2.exceptions.ProtocolError as e:
@@ -111,10 +115,18 @@ class _Endpoint:
             self._unacked.append((n, sid))
 
     def _ack(self, n, sid):
+        # Hand back exactly what was consumed, on the connection and on the stream.  (h2's own
+        # acknowledge_received_data() withholds credit below a threshold; combined with a SETTINGS frame
+        # that shrinks INITIAL_WINDOW_SIZE this can leave the sender blocked for ever - a peer artefact.)
         try:
-            self.conn.acknowledge_received_data(n, sid)
-        except h2.exceptions.ProtocolError:
+            self.conn.increment_flow_control_window(n)
+        except (h2.exceptions.ProtocolError, ValueError):
             pass  # connection already closed: nothing to hand back
+        if sid in self.conn.streams:
+            try:
+                self.conn.increment_flow_control_window(n, sid)
+            except (h2.exceptions.ProtocolError, ValueError):
+                pass  # stream already closed
 
     def release_acks(self):
         pend, self._unacked = self._unacked, []
@@ -150,7 +162,9 @@ class _Endpoint:
         try:
             fn(*a, **kw)
             return True
-        except (h2.exceptions.StreamClosedError, h2.exceptions.NoSuchStreamError):
+        except (h2.exceptions.StreamClosedError, h2.exceptions.NoSuchStreamError, h2.exceptions.StreamIDTooLowError):
+            # StreamIDTooLow: h2 has already forgotten a stream the proxy reset in the same batch of frames
+            # (the peers only ever send on stream ids they have seen or allocated themselves)
             self.skipped_sends += 1
             return False
         except h2.exceptions.ProtocolError as e:
@@ -200,6 +214,7 @@ class H2Origin(_Endpoint):
         self.open: set = set()
         self.limit_in_force = None     # None = no limit in force yet (RFC 9113 6.5.2: initially unlimited)
         self._pending_limits: list = []
+        self.last_mcs_sent = None
         self.limit_violations: list = []
         self.max_open = 0
         self.tasks: list = []
@@ -211,6 +226,24 @@ class H2Origin(_Endpoint):
     def send_settings(self, sdict: dict):
         """Every SETTINGS frame we send is queued; the value takes force when the proxy ACKs it."""
         self._pending_limits.append(sdict.get(SC.MAX_CONCURRENT_STREAMS, "unchanged"))
+        if SC.MAX_CONCURRENT_STREAMS in sdict:
+            self.last_mcs_sent = sdict[SC.MAX_CONCURRENT_STREAMS]
+
+    def send_raw_mcs(self, value: int):
+        import hyperframe.frame as HF
+        self.flush()
+        f = HF.SettingsFrame(0)
+        f.settings[int(SC.MAX_CONCURRENT_STREAMS)] = int(value)
+        if not self.closed:
+            self.tls.write(f.serialize())
+        self.send_settings({SC.MAX_CONCURRENT_STREAMS: int(value)})
+
+    def has_capacity(self) -> bool:
+        """Could the proxy open one more stream here (as far as the origin's own announcements go)?"""
+        if self.closed or self.proto_error is not None or self.goaway_tx is not None:
+            return False
+        lim = self.last_mcs_sent
+        return lim is None or len(self.open) < lim
 
     def on_settings_ack(self):
         if self._pending_limits:
@@ -222,15 +255,24 @@ class H2Origin(_Endpoint):
         spec = self.spec
         if spec.get("settings_delay"):
             await asyncio.sleep(spec["settings_delay"])
+        # MAX_CONCURRENT_STREAMS is managed by this peer itself (raw SETTINGS frames + own bookkeeping): h2 keeps one
+        # queue of pending values per setting and applies the next one on ANY ACK, i.e. possibly one ACK early,
+        # which would blame the proxy for streams it opened before it could have seen the new limit.
+        self.conn.local_settings = h2.settings.Settings(
+            client=False, initial_values={SC.MAX_CONCURRENT_STREAMS: 2 ** 31 - 1,
+                                          SC.MAX_HEADER_LIST_SIZE: self.conn.DEFAULT_MAX_HEADER_LIST_SIZE})
         self.conn.initiate_connection()
-        self.send_settings({})
+        self.send_settings({SC.MAX_CONCURRENT_STREAMS: None})   # 2^31-1: no limit
         init = settings_dict(spec.get("settings"))
+        mcs0 = init.pop(SC.MAX_CONCURRENT_STREAMS, None)
         if init:
             self.conn.update_settings(init)
-            self.send_settings(init)
-        self.first_settings_sent_at = self.now()
-        self.note("settings_tx", sorted(int(k) for k in init))
+            self.send_settings({})
         self.flush()
+        if mcs0 is not None:
+            self.send_raw_mcs(mcs0)
+        self.first_settings_sent_at = self.now()
+        self.note("settings_tx", sorted(int(k) for k in init), mcs0)
         lazy_every = spec.get("ack_every", 0.05)
         idle = spec.get("idle_close", 40.0)
         while not self.closed:
@@ -353,13 +395,11 @@ class H2Origin(_Endpoint):
             await asyncio.sleep(ch["delay"])
         if self.closed or self.proto_error:
             return
-        d = {SC.MAX_CONCURRENT_STREAMS: ch["mcs"]}
-        if not self.send_guard(self.conn.update_settings, d):
+        if self.goaway_tx is not None or self.tls.eof:
             return
-        self.send_settings(d)
+        self.send_raw_mcs(ch["mcs"])
         self.world.net.fired("origin_settings_change")
         self.note("mcs_tx", ch["mcs"])
-        self.flush()
 
     async def _goaway(self, g):
         if g.get("delay"):
@@ -515,6 +555,7 @@ class H2Client(_Endpoint):
         self.sent: dict = {}        # stream index -> what was actually put on the wire
         self.order_headers: list = []   # stream indices in the order their HEADERS were sent
         self.died = False               # the proxy ended the connection before the client did
+        self.before_close = None        # callable run at quiescence, before the client closes
 
     def obs(self, idx):
         o = self.streams.get(idx)
@@ -725,10 +766,19 @@ class H2Client(_Endpoint):
     async def finish(self, want_idx=None):
         """Wait until every started stream has an outcome (or the connection died / timeout)."""
         fin = self.spec.get("finish", {})
-        deadline = self.now() + fin.get("timeout", 60.0)
+        quiet = fin.get("timeout", 60.0)          # give up after this long WITHOUT any progress
+        deadline = self.now() + quiet
+        hard = self.now() + fin.get("hard_timeout", 3000.0)
+        def activity():
+            # anything the proxy wrote to anybody (a slow upload through a small upstream window is progress too)
+            return self.tls.plain_in + sum(getattr(c, "rx_total", 0) for c in self.world.net.conns)
+        seen = activity()
         lazy_every = self.spec.get("ack_every", 0.05)
         while True:
             self.pump()
+            if activity() != seen:
+                seen = activity()
+                deadline = min(hard, self.now() + quiet)
             if self.ack_mode == "lazy" and self._unacked:
                 await asyncio.sleep(lazy_every)
                 self.release_acks()
@@ -746,6 +796,8 @@ class H2Client(_Endpoint):
             await self.tls.wait(left)
         # did the proxy end the connection before we did?
         self.died = bool(self.tls.eof or self.proto_error is not None or self.goaway_rx is not None)
+        if self.before_close is not None:
+            self.before_close()
         how = fin.get("close", "goaway")
         if how == "none" or self.closed:
             return
